@@ -105,6 +105,19 @@ theorem non_excluded_hashed (H : Str → Str) (side : Side) (ex : List Str) (d v
   rw [← conforms_leaf H _ _ v o hleaf he hc]
   exact ho
 
+/-- A string whose path is not excluded never leaves as itself, whatever it looks like (a digest, a
+    token, …) — for every hasher without a fixed point on that string.  (The hasher of the code is MD5; the
+    correspondence harness drives the production `MD5Hasher` with digest-shaped values.) -/
+theorem non_excluded_string_changes (H : Str → Str) (side : Side) (ex : List Str) (d : Json) (q : List Step)
+    (lx : Str) (hwf : wellFormed d = true) (hget : getAt q d = some (.str lx))
+    (hnot : covered side ex q = false) (hH : H (unescape lx) ≠ lx) :
+    getAt q (obfuscateBody H side ex d) ≠ some (.str lx) := by
+  rw [non_excluded_hashed H side ex d (.str lx) q hwf hget rfl hnot]
+  intro h
+  injection h with h
+  injection h with h
+  exact hH h
+
 /-- No cross exposure: a primitive is left in clear exactly when its own path or an ancestor's is
     explicitly excluded, and is hashed otherwise — an exclusion for one path never exposes a value
     at a different path, such as a field with the same name elsewhere in the document. -/
